@@ -176,25 +176,33 @@ def remainder (ts : List RG) (s : St) (i : Nat) : St :=
   if off ≥ n then s
   else { s with cursors := s.cursors.set i n, region := s.region ++ [{ index := i, off := off, len := n - off }] }
 
+/-- merge_refine.go:298-301, 306: start of the lone slice of row group `i` -/
+def loneOff (desc : Bool) (t : Target) (s : St) (i : Nat) : Nat :=
+  max (match s.pendingLeftK with | some k => cutAbove desc t k | none => 0) (s.cursors.getD i 0)
+
+/-- merge_refine.go:302-305, 307: end of the lone slice -/
+def loneEnd (desc : Bool) (t : Target) (rightK : Option KeyRow) : Nat :=
+  min (match rightK with | some k => cutBelow desc t k | none => t.numRows) t.numRows
+
+/-- merge_refine.go:312-326: the rows of `i` before the slice join the region, the region is closed,
+    the slice `[off, e)` becomes a segment of its own -/
+def sliceLone (s : St) (i off e : Nat) : St :=
+  let s2 : St := if off > s.cursors.getD i 0 then
+      { s with region := s.region ++ [{ index := i, off := s.cursors.getD i 0, len := off - s.cursors.getD i 0 }] }
+    else s
+  { closeRegion s2 with plan := (closeRegion s2).plan ++ [[{ index := i, off := off, len := e - off }]],
+                        cursors := (closeRegion s2).cursors.set i e, sliced := true }
+
 /-- merge_refine.go:291-327 -/
 def resolveLone (desc : Bool) (ts : List RG) (s : St) (rightK : Option KeyRow) : St :=
   match s.pendingLone with
   | none => s
   | some i =>
-    let s := { s with pendingLone := none }
-    let t := (ts.getD i default).t
-    if !hasCuts t then s else
-    let off := match s.pendingLeftK with | some k => cutAbove desc t k | none => 0
-    let end_ := match rightK with | some k => cutBelow desc t k | none => t.numRows
-    let off := max off (s.cursors.getD i 0)
-    let end_ := min end_ t.numRows
-    if end_ < off + minStreamedRegionRows then s else
-    let s := if off > s.cursors.getD i 0 then
-        { s with region := s.region ++ [{ index := i, off := s.cursors.getD i 0, len := off - s.cursors.getD i 0 }] }
-      else s
-    let s := closeRegion s
-    { s with plan := s.plan ++ [[{ index := i, off := off, len := end_ - off }]],
-             cursors := s.cursors.set i end_, sliced := true }
+    if !hasCuts (ts.getD i default).t then { s with pendingLone := none }
+    else if loneEnd desc (ts.getD i default).t rightK <
+        loneOff desc (ts.getD i default).t s i + minStreamedRegionRows then { s with pendingLone := none }
+    else sliceLone { s with pendingLone := none } i (loneOff desc (ts.getD i default).t s i)
+      (loneEnd desc (ts.getD i default).t rightK)
 
 /-- merge_refine.go:329-358: one event of the sweep -/
 def stepEvent (desc : Bool) (ts : List RG) (s : St) (ev : Event) : St :=
@@ -215,14 +223,17 @@ def eventsOf (ts : List RG) : List Event :=
     [{ key := (ts.getD i default).lo, start := true, index := i },
      { key := (ts.getD i default).hi, start := false, index := i }])
 
+/-- merge_refine.go:242-256 -/
+def St.init (n : Nat) : St :=
+  { plan := [], region := [], cursors := List.replicate n 0, active := [], sliced := false,
+    pendingLone := none, pendingLeftK := none }
+
 /-- merge_refine.go:200-365: `none` = no refinement applies -/
 def refineSegment (specs : List ColSpec) (ts : List RG) : Option (List (List Part)) :=
   if ts.length < 2 then none else
   let desc := (specs.getD 0 { desc := false, nullsFirst := false }).desc
   let events := sortBy (eventLt (cmpRows specs)) (eventsOf ts)
-  let s0 : St := { plan := [], region := [], cursors := List.replicate ts.length 0, active := [], sliced := false,
-                   pendingLone := none, pendingLeftK := none }
-  let s := closeRegion (events.foldl (stepEvent desc ts) s0)
+  let s := closeRegion (events.foldl (stepEvent desc ts) (St.init ts.length))
   if s.sliced then some s.plan else none
 
 /-- merge.go:96-119: the plan of `MergeRowGroups` without duplicate dropping: for every final
